@@ -18,7 +18,8 @@ def reference(P: Dict[str, Any], args: List[Any]) -> Tuple[Any, Optional[BaseExc
     R = prog.Ref()
     try:
         return prog.ref_run(P, [dec(a) for a in args], R), None, R
-    except (prog.RefError, prog.MissingArg) as e:
+    except (prog.RefError, prog.MissingArg, KeyError, IndexError) as e:
+        # KeyError / IndexError: the program indexes a value with a key it does not have (generated on purpose)
         return None, e, R
 
 
